@@ -1,4 +1,5 @@
 struct S { int a; char b[3]; double d; unsigned bf : 3; }; union U { int i; float f; }; enum E { E0, E1 = 5 };
-int gi; unsigned gu; long gl; double gd; float gf; char gc; _Bool gb; int *gp; char *gs; void *gv; struct S gS; union U gU; enum E ge; int ga[4]; int gf0(void); int gf2(int, double); int gfv(int, ...); void gvoid(void); int (*gfp)(void);
+int gi; unsigned gu; long gl; double gd; float gf; char gc; _Bool gb; int *gp; char *gs; void *gv; struct S gS; union U gU; enum E ge; int ga[4]; int gf0(void); int gf2(int, double); int gfv(int, ...); int gfz(...); void gvoid(void); _Noreturn void gdie(int); int (*gfp)(void);
 
-int * f0(void) { goto L2; }
+inline int f0(struct S s) { (gfv(1, 2, 3.0) ? (gi || (gdie(2), 0)) : gf0()); long v3 = gfz(gi); goto L0; { extern int a; { extern long a; } } do goto L2; while (-1); }
+extern int f0(struct S s);
